@@ -207,5 +207,15 @@ def parseOutParam (a : AddArg) (requireDefault edd : Bool) : Res Param :=
 def argRT (name : Str) (p : Param) (edd requireDefault : Bool) : Res Param :=
   (param2argparse name p edd).bind fun a => parseOutParam a requireDefault false
 
+/-- all the options of one function: `emit.argparse_function` maps `param2argparse_param` over the entries,
+    `parse.argparse_ast` reads the calls back in order and switches `require_default` on after the first option
+    that came back with a default -/
+def argparseParams (edd : Bool) : List (Str × Param) → Bool → Res (List (Str × Param))
+  | [], _ => .ok []
+  | (n, p) :: rest, rd =>
+    (argRT n p edd rd).bind fun q =>
+    (argparseParams edd rest (rd || required0Of q.default)).bind fun qs =>
+    .ok ((n, q) :: qs)
+
 end ArgAttr
 end Py
